@@ -190,6 +190,9 @@ def run_random(desc):
         opts = Opts(capital=rng.random() < 0.3, splits=True, n_sec=(1, 3), steps=(4, 12), long_gaps_p=0.5,
                     start=(dt.date(lo, 1, 1), dt.date(lo + 6, 1, 1)), last_date=dt.date(2101, 4, 5))
         txs, _ = gen_ledger(rng, opts)
+        if any(not (FIRST <= pdate(t["date"]) <= LAST) for t in txs):
+            cnt["ledgers_outside_supported_range(skipped)"] += 1
+            continue   # the property quantifies over tax years 1900..2100 only
         years = sorted({tax_year_of(pdate(t["date"])) for t in txs})
         filters = sorted({y for y in range(max(1900, years[0] - 1), min(2100, years[-1] + 1) + 1)})
         if len(filters) > 8:
